@@ -73,16 +73,23 @@ Proof.
   apply String.eqb_eq in H, H0, H1, H2. auto.
 Qed.
 
-(* the write hits the object being reset, unconditionally or under a reviewed guard of the route *)
+(* the write hits the object being reset, and every level of its nesting is an error exit or a reviewed guard of the route *)
 Definition applies_prop (r : route) (w : write) : Prop :=
-  In (w_obj w) (r_objs r) /\ (w_guard w = "" \/ In (w_guard w) (r_guards r)).
+  In (w_obj w) (r_objs r) /\ guard_ok r (w_guard w) = true.
 
 Lemma applies_spec : forall r w, applies r w = true -> applies_prop r w.
 Proof.
   unfold applies, applies_prop. intros r w H. apply andb_prop in H. destruct H as [H1 H2].
-  apply mem_In in H1. split; [exact H1|]. apply orb_prop in H2. destruct H2 as [H2|H2].
-  - left. apply String.eqb_eq in H2. exact H2.
-  - right. apply mem_In in H2. exact H2.
+  apply mem_In in H1. split; assumption.
+Qed.
+
+(* what guard_ok means, level by level *)
+Lemma guard_ok_spec : forall r g, guard_ok r g = true ->
+  forall c, In c g -> c = GErrExit \/ exists c', In c' (r_guards r) /\ gcomp_eqb c c' = true.
+Proof.
+  intros r g H c Hc. unfold guard_ok in H. rewrite forallb_forall in H. specialize (H c Hc).
+  destruct c; try (right; apply existsb_exists in H; destruct H as [c' [H1 H2]]; exists c'; split; assumption).
+  left; reflexivity.
 Qed.
 
 Definition plain_write (c f : string) (w : write) : Prop :=
@@ -100,8 +107,9 @@ Qed.
    (3) ALL sub-writes of one reviewed special idiom, each applied to the object being reset *)
 Lemma covered_spec : forall r ws c f, covered r ws c f = true ->
   (exists w, In w ws /\ plain_write c f w /\ applies_prop r w) \/
-  (exists w1 w2, In w1 ws /\ In w2 ws /\ plain_write c f w1 /\ plain_write c f w2 /\
-                 In (w_obj w1) (r_objs r) /\ In (w_obj w2) (r_objs r) /\ w_guard w2 = String.append "!" (w_guard w1)) \/
+  (exists w1 w2 pre other, In w1 ws /\ In w2 ws /\ plain_write c f w1 /\ plain_write c f w2 /\
+                 In (w_obj w1) (r_objs r) /\ In (w_obj w2) (r_objs r) /\
+                 negate_last (w_guard w1) = Some (pre, other) /\ guard_ok r pre = true /\ guard_eqb (w_guard w2) other = true) \/
   (exists s, In s specials /\ sp_class s = c /\ sp_field s = f /\
              forall sub, In sub (sp_subs s) ->
                exists w, In w ws /\ w_class w = c /\ w_field w = f /\ w_sub w = sub /\ w_how w = sp_how s /\ applies_prop r w).
@@ -112,12 +120,13 @@ Proof.
       exists w. split; [exact Hw|]. split; [apply plain_sel_spec; exact H1 | apply applies_spec; exact H2].
     + right. left. unfold applies_both in H. apply existsb_exists in H. destruct H as [w1 [Hw1 H]].
       apply andb_prop in H. destruct H as [H H2]. apply andb_prop in H. destruct H as [Hs1 Ho1].
+      destruct (negate_last (w_guard w1)) as [[pre other]|] eqn:Hn; [|discriminate].
+      apply andb_prop in H2. destruct H2 as [Hpre H2].
       apply existsb_exists in H2. destruct H2 as [w2 [Hw2 H2]].
       apply andb_prop in H2. destruct H2 as [H2 Hg]. apply andb_prop in H2. destruct H2 as [Hs2 Ho2].
-      exists w1, w2. apply mem_In in Ho1, Ho2. apply String.eqb_eq in Hg.
-      repeat split; auto; try (apply plain_sel_spec; assumption).
-      all: try (destruct (plain_sel_spec _ _ _ Hs1) as [? [? [? ?]]]; assumption).
-      all: try (destruct (plain_sel_spec _ _ _ Hs2) as [? [? [? ?]]]; assumption).
+      exists w1, w2, pre, other. apply mem_In in Ho1, Ho2.
+      split; [exact Hw1|]. split; [exact Hw2|]. split; [apply plain_sel_spec; exact Hs1|]. split; [apply plain_sel_spec; exact Hs2|].
+      split; [exact Ho1|]. split; [exact Ho2|]. split; [exact Hn|]. split; assumption.
   - right. right. unfold covered_special in H. apply existsb_exists in H. destruct H as [s [Hs H]].
     repeat (apply andb_prop in H; destruct H as [H ?]).
     apply String.eqb_eq in H, H1. exists s. repeat split; auto.
@@ -202,15 +211,16 @@ Definition from_route (fs : list func_decl) (r : route) (w : write) : Prop :=
 
 Lemma covered_means_written : forall fs r c f, covered r (route_writes fs r) c f = true ->
   (exists w, from_route fs r w /\ plain_write c f w /\ applies_prop r w) \/
-  (exists w1 w2, from_route fs r w1 /\ from_route fs r w2 /\ plain_write c f w1 /\ plain_write c f w2 /\
-                 In (w_obj w1) (r_objs r) /\ In (w_obj w2) (r_objs r) /\ w_guard w2 = String.append "!" (w_guard w1)) \/
+  (exists w1 w2 pre other, from_route fs r w1 /\ from_route fs r w2 /\ plain_write c f w1 /\ plain_write c f w2 /\
+                 In (w_obj w1) (r_objs r) /\ In (w_obj w2) (r_objs r) /\
+                 negate_last (w_guard w1) = Some (pre, other) /\ guard_ok r pre = true /\ guard_eqb (w_guard w2) other = true) \/
   (exists s, In s specials /\ sp_class s = c /\ sp_field s = f /\
      forall sub, In sub (sp_subs s) ->
        exists w, from_route fs r w /\ w_class w = c /\ w_field w = f /\ w_sub w = sub /\ w_how w = sp_how s /\ applies_prop r w).
 Proof.
-  intros fs r c f H. apply covered_spec in H. destruct H as [[w [Hw H]]|[[w1 [w2 [Hw1 [Hw2 H]]]]|[s [Hs [H1 [H2 H3]]]]]].
+  intros fs r c f H. apply covered_spec in H. destruct H as [[w [Hw H]]|[[w1 [w2 [pre [other [Hw1 [Hw2 H]]]]]]|[s [Hs [H1 [H2 H3]]]]]].
   - left. exists w. split; [|exact H]. destruct (route_writes_sound fs r w Hw) as [n [rt [Hr [Hc Hin]]]]. exists n, rt. auto.
-  - right. left. exists w1, w2.
+  - right. left. exists w1, w2, pre, other.
     destruct (route_writes_sound fs r w1 Hw1) as [n1 [rt1 [Hr1 [Hc1 Hin1]]]].
     destruct (route_writes_sound fs r w2 Hw2) as [n2 [rt2 [Hr2 [Hc2 Hin2]]]].
     split; [exists n1, rt1; auto|]. split; [exists n2, rt2; auto|]. exact H.
